@@ -1383,3 +1383,110 @@ def r_conflict_attributed(ctx):
 C19_RULES = [r_core_map, r_option_noninterference, r_option_table, r_conflict_attributed,
              # a constraint that owns no assertion can never be named in a conflict (R-EFFECT-ONLY, shared with C10)
              lambda ctx: __import__("rules.logic", fromlist=["x"]).r_effect_only_constraints(ctx)]
+
+
+_LIST_MUTATORS = ("pop", "append", "extend", "insert", "remove", "clear", "sort", "reverse", "popitem", "update", "setdefault", "discard", "add")
+
+
+def r_arg_readonly(ctx):
+    """'a second solver on the same problem sees the same constraints': the solver is handed the model's own lists
+    (`x.get_z3_assertions()` returns the list itself, R-BASE-STORE) - no method of SchedulingSolver may modify in place a list
+    it received as a parameter or read through get_z3_assertions(): pop / append / extend / insert / remove / clear / sort /
+    reverse on it, item or slice assignment, del, `+=`.  A name stops being foreign once it is rebound, on every path to the
+    modification, to an object made here (a list display, a comprehension, list(..), sorted(..), x.copy(), x[:], a concatenation)."""
+    cls = ctx.project.classes["SchedulingSolver"]
+    n = 0
+
+    def made_here(e, fresh):
+        if isinstance(e, (ast.List, ast.ListComp, ast.Tuple, ast.Dict, ast.DictComp, ast.Set, ast.SetComp, ast.Constant, ast.BinOp)):
+            return True
+        if isinstance(e, ast.Call):
+            if isinstance(e.func, ast.Name) and e.func.id in ("list", "sorted", "tuple", "dict", "set", "reversed"):
+                return True
+            if isinstance(e.func, ast.Attribute) and e.func.attr in ("copy",) and not e.args:
+                return True
+        if isinstance(e, ast.Subscript) and isinstance(e.slice, ast.Slice):
+            return True
+        if isinstance(e, ast.Name):
+            return e.id in fresh
+        if isinstance(e, ast.IfExp):
+            return made_here(e.body, fresh) and made_here(e.orelse, fresh)
+        return False
+
+    def foreign_source(e):
+        return any(isinstance(c, ast.Call) and isinstance(c.func, ast.Attribute) and c.func.attr == "get_z3_assertions" for c in ast.walk(e))
+
+    for name, fn in sorted(cls.methods.items()) if hasattr(cls, "methods") else []:
+        if not isinstance(fn, ast.FunctionDef):
+            continue
+        foreign0 = {a.arg for a in fn.args.args[1:] + fn.args.kwonlyargs}
+        reports = []
+
+        def own_exprs(st):
+            """the expressions evaluated by the statement itself (not by the statements nested in it)"""
+            if isinstance(st, (ast.If, ast.While)):
+                return [st.test]
+            if isinstance(st, ast.For):
+                return [st.iter]
+            if isinstance(st, ast.With):
+                return [i.context_expr for i in st.items]
+            if isinstance(st, (ast.Try, ast.FunctionDef, ast.ClassDef)):
+                return []
+            return [st]
+
+        def sites(node, foreign):
+            for x in ast.walk(node):
+                if isinstance(x, ast.Call) and isinstance(x.func, ast.Attribute) and x.func.attr in _LIST_MUTATORS \
+                        and isinstance(x.func.value, ast.Name) and x.func.value.id in foreign:
+                    reports.append((x.func.value.id, f".{x.func.attr}()", x.lineno))
+                if isinstance(x, (ast.Assign, ast.AugAssign, ast.Delete)):
+                    tgs = x.targets if isinstance(x, (ast.Assign, ast.Delete)) else [x.target]
+                    for t in tgs:
+                        if isinstance(t, ast.Subscript) and isinstance(t.value, ast.Name) and t.value.id in foreign:
+                            reports.append((t.value.id, "item / slice assignment" if not isinstance(x, ast.Delete) else "del", x.lineno))
+                        if isinstance(x, ast.AugAssign) and isinstance(t, ast.Name) and t.id in foreign and isinstance(x.op, ast.Add):
+                            reports.append((t.id, "+= (in place for a list)", x.lineno))
+
+        def block(stmts, foreign, fresh):
+            for st in stmts:
+                for e in own_exprs(st):
+                    sites(e, foreign)
+                if isinstance(st, ast.Assign) and len(st.targets) == 1 and isinstance(st.targets[0], ast.Name):
+                    nm = st.targets[0].id
+                    if made_here(st.value, fresh):
+                        foreign, fresh = foreign - {nm}, fresh | {nm}
+                    elif foreign_source(st.value) or (isinstance(st.value, ast.Name) and st.value.id in foreign):
+                        foreign, fresh = foreign | {nm}, fresh - {nm}
+                    else:
+                        fresh = fresh - {nm}
+                subs = [getattr(st, f_) for f_ in ("body", "orelse", "finalbody") if isinstance(getattr(st, f_, None), list)]
+                subs += [h.body for h in getattr(st, "handlers", [])]
+                if isinstance(st, ast.For) and isinstance(st.target, ast.Name) and foreign_source(st.iter):
+                    pass
+                if subs and not isinstance(st, (ast.FunctionDef, ast.ClassDef)):
+                    outs = [block(b, set(foreign), set(fresh)) for b in subs]
+                    if isinstance(st, (ast.For, ast.While)):
+                        outs += [block(st.body, set.union(foreign, *[o[0] for o in outs]), set.intersection(fresh, *[o[1] for o in outs]))]
+                    if not (isinstance(st, ast.If) and st.orelse):
+                        outs.append((foreign, fresh))               # the block may not run at all
+                    foreign = set.union(*[o[0] for o in outs])
+                    fresh = set.intersection(*[o[1] for o in outs])
+            return foreign, fresh
+
+        block(fn.body, set(foreign0), set())
+        n += 1
+        seen = set()
+        for nm, how, line in reports:
+            if (nm, how) in seen:
+                continue
+            seen.add((nm, how))
+            ctx.violation("R-ARG-READONLY", f"SchedulingSolver.{name}", f"{nm} modified in place",
+                          f"`{nm}` can be a list of the model itself (a parameter / the result of get_z3_assertions()) and is modified in place "
+                          f"({how}): the element loses or gains assertions for every later solver, export or report on the same problem",
+                          f"processscheduler/solver.py:{line}")
+        if not reports:
+            ctx.ok("R-ARG-READONLY", f"SchedulingSolver.{name}: no list received from outside is modified in place")
+    ctx.floor("R-ARG-READONLY", "solver methods scanned", n, 10)
+
+
+C13_RULES.append(r_arg_readonly)
